@@ -273,6 +273,8 @@ class SmallSetInterp {
   }
   FILE *transcript = 0;
   int portability = 0;
+  // abstract state of slot 0 at the end of the last run (for the bounded-exhaustive search): content bitmask | inline flag << 32
+  uint64_t final_state = 0;
   void dump_state() {
     for (int i = 0; i < K; ++i) {
       fprintf(transcript, " s%d(size=%ld)[", i, static_cast<long>(s[i].c->size()));
@@ -298,6 +300,14 @@ class SmallSetInterp {
     }
     if (!tainted())
       for (int i = 0; i < K; ++i) check_set(i, "end of case");
+    if (!tainted()) {
+      final_state = 0;
+      for (Model::const_iterator it = s[0].m->begin(); it != s[0].m->end(); ++it) final_state |= 1ull << (*it % 32);
+      if (is_inline(0)) final_state |= 1ull << 32;
+      if (node_has) final_state |= static_cast<uint64_t>(node_val + 1) << 40;
+    } else {
+      final_state = ~0ull;
+    }
     end_case();
     bool f = ctx().failed;
     case_end(nontrivial());
